@@ -537,6 +537,15 @@ impl<T: UciTx, H: Heuristic, M: MoveOrder> Search<T, H, M> {
     }
 }
 
+#[cfg(inkayaku_verif)]
+impl<T: UciTx, H: Heuristic, M: MoveOrder> Search<T, H, M> {
+    pub(crate) fn verif_quiescence(&mut self, bitboard: Bitboard) -> i32 {
+        self.state.bitboard = bitboard;
+        let zobrist_pawn_hash = self.state.bitboard.calculate_zobrist_pawn_hash();
+        self.search_quiescence(0, &mut Self::create_buffer(), self.heuristic.loss_score(), self.heuristic.win_score(), zobrist_pawn_hash).value
+    }
+}
+
 /// Non-search related functionality
 impl<T: UciTx, H: Heuristic, M: MoveOrder> Search<T, H, M> {
     fn generate_info(&self) -> Info {
